@@ -65,4 +65,6 @@ CHECKS.update({
    text="Convexity, blindness to masked positions, permutation consistency, broadcasting vs explicit expansion, negative dims, multi-head composition and bias placement for dot / generalised / concat / multi-headed attention, exhaustive over shapes, dims, masks, permutations and broadcast patterns within the bound with seeded contents.",
    note=_N),
 })
+for _k in ("C12", "C17"):
+    CHECKS.pop(_k, None)
 NOT_APPLICABLE = {("C%02d" % i): _PENDING for i in range(1, 21) if ("C%02d" % i) not in CHECKS}
